@@ -11,6 +11,7 @@ import NurbsVerif.Lemmas.FitParams
 import NurbsVerif.Lemmas.LayoutSweepGen
 import NurbsVerif.Lemmas.ConstructEval
 import NurbsVerif.Lemmas.ConstructRatMain
+import NurbsVerif.Lemmas.LayoutGuards
 
 /-!
 # C13  One control-net layout convention across all modules
@@ -252,23 +253,51 @@ theorem extract_construct_volume_w_pinned (V : Vol α κ) (h : V.WF) :
 
 /-- Repaired `sweep_vector` on a curve returns a surface of degree `1 × p` with sizes `2 × n`, and its
     two `u`-sections (the `'v'` family of `extract_curves`) are the input curve and its translate.
-    (Mostly unfolding (`rfl` components of the constructed record); the substantive part is the last conjunct.) -/
-theorem sweep_curve_sections (tr : α → α) (kvGen : κ) (C : Crv α κ) :
+    (Mostly unfolding (`rfl` components of the constructed record); the substantive part is the last conjunct.)
+    Guard of the code (and of the driver ops `sweepc` / `sweepcr`): the translated points have the number of coordinates
+    of the input points (`hd`, `htr`) – `point_translate` zips the point with the vector, so a vector with fewer
+    entries than the points have spatial coordinates shortens them and `set_ctrlpts` of the swept copy raises, while
+    the model would return a ragged net.  For the two point maps of the code `htr` follows from
+    `vec.length ≥` number of spatial coordinates (`sweep_point_maps_keep_dimension`). -/
+theorem sweep_curve_sections {β : Type} (tr : List β → List β) (kvGen : κ) (C : Crv (List β) κ)
+    (d : ℕ) (hd : ∀ p ∈ C.pts, p.length = d) (htr : ∀ p ∈ C.pts, (tr p).length = d) :
     ∃ S, sweepCurve tr kvGen C = some S ∧ S.du = 1 ∧ S.dv = C.deg ∧ S.ku = kvGen ∧ S.kv = C.kv ∧
-      S.su = 2 ∧ S.sv = C.pts.length ∧ extractCurvesV S = [C, { C with pts := C.pts.map tr }] :=
-  ⟨_, sweepCurve_eq tr kvGen C, rfl, rfl, rfl, rfl, rfl, rfl, extractCurvesV_sweep tr kvGen C⟩
+      S.su = 2 ∧ S.sv = C.pts.length ∧ extractCurvesV S = [C, { C with pts := C.pts.map tr }] ∧
+      ∀ p ∈ S.pts, p.length = d :=
+  ⟨_, sweepCurve_eq tr kvGen C, rfl, rfl, rfl, rfl, rfl, rfl, extractCurvesV_sweep tr kvGen C,
+    sweep_pts_length tr C.pts d hd htr⟩
 
 /-- `sweep_vector` on a surface returns a volume of degree `pu × pv × 1` with sizes `su × sv × 2`, and its
     two `w`-sections (the `'uv'` family of `extract_surfaces`) are the input surface and its translate.
     (Mostly unfolding (`rfl` components of the constructed record); the substantive part is the last conjunct.)
-    Guard of the code (and of the driver op `sweeps`): the control points have at least 3 spatial coordinates
-    (`rat = true`: homogeneous points, `d` counts the weight, so `4 ≤ d`) – `Volume.set_ctrlpts` raises "A volume
-    should be at least 3-dimensional" for a planar surface, while the model would return. -/
-theorem sweep_surface_sections {β : Type} (tr : List β → List β) (kvGen : κ) (S : Srf (List β) κ) (h : S.WF)
-    (d : ℕ) (hd : ∀ p ∈ S.pts, p.length = d) (rat : Bool) (h3 : (if rat then 4 else 3) ≤ d) :
-    ∃ V, sweepSurface tr kvGen S = some V ∧ V.du = S.du ∧ V.dv = S.dv ∧ V.dw = 1 ∧ V.kw = kvGen ∧
-      V.su = S.su ∧ V.sv = S.sv ∧ V.sw = 2 ∧ extractSurfacesUV V = [S, { S with pts := S.pts.map tr }] :=
-  ⟨_, sweepSurface_eq tr kvGen S, rfl, rfl, rfl, rfl, rfl, rfl, rfl, extractSurfacesUV_sweep tr kvGen S h⟩
+    The point map is the one of the code and of the driver op `sweeps`, selected by the flag `rat` (`rat = true`: a
+    rational surface, stored homogeneous points, `pointTranslateW vec`; `rat = false`: `pointTranslate vec`), and the
+    guards are tied to that flag – the control points have at least 3 spatial coordinates (`h3`; for `rat = true` `d`
+    counts the weight, so `4 ≤ d`: `Volume.set_ctrlpts` raises "A volume should be at least 3-dimensional" for a
+    planar surface, while the model would return), the vector has at least as many entries as there are spatial
+    coordinates (`hvec`: else the translated points are shorter and `set_ctrlpts` of the copy raises) and, for a
+    rational surface, no weight is zero (`hw`: else `ctrlpts` divides by zero). -/
+theorem sweep_surface_sections {K : Type} [Field K] [LinearOrder K] [IsStrictOrderedRing K]
+    (vec : List K) (rat : Bool) (kvGen : κ) (S : Srf (List K) κ) (h : S.WF)
+    (d : ℕ) (hd : ∀ p ∈ S.pts, p.length = d) (h3 : (if rat then 4 else 3) ≤ d)
+    (hvec : (if rat then d - 1 else d) ≤ vec.length) (hw : rat = true → HomOk S.pts) :
+    ∃ V, sweepSurface (if rat then pointTranslateW vec else pointTranslate vec) kvGen S = some V ∧
+      V.du = S.du ∧ V.dv = S.dv ∧ V.dw = 1 ∧ V.kw = kvGen ∧
+      V.su = S.su ∧ V.sv = S.sv ∧ V.sw = 2 ∧
+      extractSurfacesUV V = [S, { S with pts := S.pts.map (if rat then pointTranslateW vec else pointTranslate vec) }] ∧
+      ∀ p ∈ V.pts, p.length = d :=
+  ⟨_, sweepSurface_eq _ kvGen S, rfl, rfl, rfl, rfl, rfl, rfl, rfl, extractSurfacesUV_sweep _ kvGen S h,
+    sweep_pts_length _ S.pts d hd (sweepTr_length vec rat d S.pts hd (by cases rat <;> simp at h3 ⊢ <;> omega) hvec)⟩
+
+/-- **The two point maps of `sweep_vector` keep the number of coordinates exactly under the guard**: `point_translate`
+    returns `min (len p) (len vec)` coordinates, so `d ≤ len vec` is what keeps a `d`-coordinate point at `d`
+    coordinates; the rational map (divide by the weight, translate, multiply back, append the weight) keeps `d + 1`
+    homogeneous coordinates under the same condition. -/
+theorem sweep_point_maps_keep_dimension {K : Type} [Field K] [LinearOrder K] [IsStrictOrderedRing K] (vec p : List K) (d : ℕ) :
+    (pointTranslate vec p).length = min p.length vec.length ∧
+    (p.length = d → d ≤ vec.length → (pointTranslate vec p).length = d) ∧
+    (p.length = d + 1 → d ≤ vec.length → (pointTranslateW vec p).length = d + 1) :=
+  ⟨pointTranslate_length_min vec p, pointTranslate_length_of_le vec p d, pointTranslateW_length_of_le vec p d⟩
 
 /-- For a rational shape the point map used by the sweep (divide by the weight, translate, multiply
     by the weight) keeps the weight and projects to the translate of the projected point. -/
@@ -447,19 +476,27 @@ theorem sweep_curve_boundary_points {K : Type} [Field K] [LinearOrder K] [IsStri
 
 /-- **Sweep of a surface, evaluated**: the volume returned by `sweep_vector` satisfies
     `V(u, v, w_min) = S(u, v)` and `V(u, v, w_max) = S'(u, v)`, `S'` the surface with the translated control
-    points – every `(u, v)`, every coordinate.  Guard of the code / driver op: at least 3 spatial coordinates
-    (`h3`; `rat = true` for homogeneous points: `4 ≤ d`) – a planar surface makes `Volume.set_ctrlpts` raise. -/
+    points – every `(u, v)`, every coordinate of the stored points.  The point map is the one of the code / of the
+    driver op `sweeps`, selected by `rat` (`true`: rational surface, homogeneous points, `pointTranslateW vec`;
+    `false`: `pointTranslate vec`); the guards of the code are tied to that flag (audit 4, H4: no free Boolean): at
+    least 3 spatial coordinates (`h3`; `rat = true`: `d` counts the weight, `4 ≤ d`) – a planar surface makes
+    `Volume.set_ctrlpts` raise –, a vector with at least as many entries as there are spatial coordinates (`hvec`) and
+    non-zero weights of a rational surface (`hw`).  (For an arbitrary coordinate-count preserving point map the
+    equalities are `Geomdl.sweepSurface_boundary`; the projected form for rational surfaces is
+    `sweep_surface_boundary_points_rational`.) -/
 theorem sweep_surface_boundary_points {K : Type} [Field K] [LinearOrder K] [IsStrictOrderedRing K]
-    (tr : List K → List K) (kvGen : ℕ → K) (S : Srf (List K) (ℕ → K)) (d : ℕ)
+    (vec : List K) (rat : Bool) (kvGen : ℕ → K) (S : Srf (List K) (ℕ → K)) (d : ℕ)
     (h : S.WF) (hdu : S.du + 1 ≤ S.su) (hdv : S.dv + 1 ≤ S.sv) (hd : ∀ p ∈ S.pts, p.length = d)
-    (rat : Bool) (h3 : (if rat then 4 else 3) ≤ d)
-    (htr : ∀ p ∈ S.pts, (tr p).length = d) (hk : KnotsOk 1 kvGen 2) (hc : ClampedOk 1 kvGen 2) (u v : K) (j : ℕ) :
-    ∃ V, sweepSurface tr kvGen S = some V ∧
+    (h3 : (if rat then 4 else 3) ≤ d) (hvec : (if rat then d - 1 else d) ≤ vec.length) (hw : rat = true → HomOk S.pts)
+    (hk : KnotsOk 1 kvGen 2) (hc : ClampedOk 1 kvGen 2) (u v : K) (j : ℕ) :
+    ∃ V, sweepSurface (if rat then pointTranslateW vec else pointTranslate vec) kvGen S = some V ∧
       (volumePoint V.du V.dv V.dw V.ku V.kv V.kw V.su V.sv V.sw V.pts u v (kvGen 1)).getD j 0
         = (surfacePoint S.du S.dv S.ku S.kv S.su S.sv S.pts u v).getD j 0 ∧
       (volumePoint V.du V.dv V.dw V.ku V.kv V.kw V.su V.sv V.sw V.pts u v (kvGen 2)).getD j 0
-        = (surfacePoint S.du S.dv S.ku S.kv S.su S.sv (S.pts.map tr) u v).getD j 0 :=
-  sweepSurface_boundary tr kvGen S d h hdu hdv hd htr hk hc u v j
+        = (surfacePoint S.du S.dv S.ku S.kv S.su S.sv
+            (S.pts.map (if rat then pointTranslateW vec else pointTranslate vec)) u v).getD j 0 :=
+  sweepSurface_boundary _ kvGen S d h hdu hdv hd
+    (sweepTr_length vec rat d S.pts hd (by cases rat <;> simp at h3 ⊢ <;> omega) hvec) hk hc u v j
 
 /-- **The sweep knot vector is `knotvector.generate(1, 2)`** (model `knotGenerate 1 2 true tol`, `tol` = the literal
     `10e-8 < 1` of `linspace`; what the driver ops `sweepc` / `sweeps` pass as `kvGen`): it is `[0, 0, 1, 1]`, meets
@@ -484,18 +521,22 @@ theorem sweep_curve_boundary_points_generated {K : Type} [Field K] [LinearOrder 
     (genKv_knotsOk tol htol) (genKv_clampedOk tol htol) v j
   rwa [(genKv_ends tol htol).1, (genKv_ends tol htol).2] at h
 
-/-- … and `V(u, v, 0) = S(u, v)`, `V(u, v, 1) = S'(u, v)` for the swept surface (3-D guard as above). -/
+/-- … and `V(u, v, 0) = S(u, v)`, `V(u, v, 1) = S'(u, v)` for the swept surface (point map and guards tied to the flag
+    `rat` as above: 3 spatial coordinates, vector long enough, non-zero weights). -/
 theorem sweep_surface_boundary_points_generated {K : Type} [Field K] [LinearOrder K] [IsStrictOrderedRing K]
-    (tr : List K → List K) (tol : K) (htol : tol < 1) (S : Srf (List K) (ℕ → K)) (d : ℕ)
+    (vec : List K) (rat : Bool) (tol : K) (htol : tol < 1) (S : Srf (List K) (ℕ → K)) (d : ℕ)
     (h : S.WF) (hdu : S.du + 1 ≤ S.su) (hdv : S.dv + 1 ≤ S.sv) (hd : ∀ p ∈ S.pts, p.length = d)
-    (rat : Bool) (h3 : (if rat then 4 else 3) ≤ d)
-    (htr : ∀ p ∈ S.pts, (tr p).length = d) (u v : K) (j : ℕ) :
-    ∃ V, sweepSurface tr (fnOf (knotGenerate 1 2 true tol : List K)) S = some V ∧
+    (h3 : (if rat then 4 else 3) ≤ d) (hvec : (if rat then d - 1 else d) ≤ vec.length) (hw : rat = true → HomOk S.pts)
+    (u v : K) (j : ℕ) :
+    ∃ V, sweepSurface (if rat then pointTranslateW vec else pointTranslate vec) (fnOf (knotGenerate 1 2 true tol : List K)) S
+        = some V ∧
       (volumePoint V.du V.dv V.dw V.ku V.kv V.kw V.su V.sv V.sw V.pts u v 0).getD j 0
         = (surfacePoint S.du S.dv S.ku S.kv S.su S.sv S.pts u v).getD j 0 ∧
       (volumePoint V.du V.dv V.dw V.ku V.kv V.kw V.su V.sv V.sw V.pts u v 1).getD j 0
-        = (surfacePoint S.du S.dv S.ku S.kv S.su S.sv (S.pts.map tr) u v).getD j 0 := by
-  have h := sweepSurface_boundary tr (fnOf (knotGenerate 1 2 true tol : List K)) S d h hdu hdv hd htr
+        = (surfacePoint S.du S.dv S.ku S.kv S.su S.sv
+            (S.pts.map (if rat then pointTranslateW vec else pointTranslate vec)) u v).getD j 0 := by
+  have h := sweepSurface_boundary _ (fnOf (knotGenerate 1 2 true tol : List K)) S d h hdu hdv hd
+    (sweepTr_length vec rat d S.pts hd (by cases rat <;> simp at h3 ⊢ <;> omega) hvec)
     (genKv_knotsOk tol htol) (genKv_clampedOk tol htol) u v j
   rwa [(genKv_ends tol htol).1, (genKv_ends tol htol).2] at h
 
@@ -519,9 +560,26 @@ example (u v : ℚ) (j : ℕ) : ∃ V, sweepSurface (pointTranslate [5,7,1]) (fn
     (volumePoint V.du V.dv V.dw V.ku V.kv V.kw V.su V.sv V.sw V.pts u v 1).getD j 0
       = (surfacePoint c13SweepSrf.du c13SweepSrf.dv c13SweepSrf.ku c13SweepSrf.kv c13SweepSrf.su c13SweepSrf.sv
           (c13SweepSrf.pts.map (pointTranslate [5,7,1])) u v).getD j 0 := by
-  obtain ⟨V, h1, _, h2⟩ := sweep_surface_boundary_points_generated (pointTranslate [5,7,1]) (1/10000000 : ℚ) (by norm_num)
-    c13SweepSrf 3 (by unfold Srf.WF; decide) (by decide) (by decide) (by decide) false (by decide) (by decide +kernel) u v j
+  obtain ⟨V, h1, _, h2⟩ := sweep_surface_boundary_points_generated [5,7,1] false (1/10000000 : ℚ) (by norm_num)
+    c13SweepSrf 3 (by unfold Srf.WF; decide) (by decide) (by decide) (by decide) (by decide) (by decide)
+    (fun h => absurd h (by decide)) u v j
   exact ⟨V, h1, h2⟩
+
+/-- … the homogeneous instance (`rat = true`): the rational bilinear surface `c13RatSrf` (4 homogeneous coordinates,
+    weights `1, 2, 1/2, 3`) meets the tied guards with a vector of 3 entries, and the theorem applies -/
+example (u v : ℚ) (j : ℕ) : ∃ V, sweepSurface (pointTranslateW [5,7,1]) (fnOf (knotGenerate 1 2 true (1/10000000 : ℚ))) c13RatSrf = some V ∧
+    (volumePoint V.du V.dv V.dw V.ku V.kv V.kw V.su V.sv V.sw V.pts u v 0).getD j 0
+      = (surfacePoint c13RatSrf.du c13RatSrf.dv c13RatSrf.ku c13RatSrf.kv c13RatSrf.su c13RatSrf.sv c13RatSrf.pts u v).getD j 0 := by
+  obtain ⟨V, h1, h2, _⟩ := sweep_surface_boundary_points_generated [5,7,1] true (1/10000000 : ℚ) (by norm_num)
+    c13RatSrf 4 (by unfold Srf.WF; decide) (by decide) (by decide) (by decide) (by decide) (by decide)
+    (fun _ => by unfold HomOk; decide +kernel) u v j
+  exact ⟨V, h1, h2⟩
+
+/-- … while a vector shorter than the points (audit 4, H2) is outside the guard, and what the unguarded model would
+    return there is a ragged net: points of 3 and of 2 coordinates (the code raises
+    "Rational curves expect weighted control points") -/
+example : (sweepCurve (pointTranslateW [1]) [0,0,1,1] c13RatCrvL).map (fun S => S.pts.map List.length)
+    = some [3, 3, 3, 2, 2, 2] := by decide +kernel
 
 /-- … the `v` direction of `c13EvalVol` (degree 2, knots `[0,0,0,1,1,1]`, 3 points) too, and on that volume
     the `v_max` boundary at `(1/3, ·, 1/4)` is the last `'uw'` surface at `(1/3, 1/4)` -/
@@ -536,9 +594,14 @@ example : KnotsOk c13EvalVol.dv c13EvalVol.kv c13EvalVol.sv ∧
 /-- **`extract_curves` after `construct_surface`** (the converse of `extract_construct_surface`): for at least two
     curves of one degree and one size, the `'v'` family of the surface stacked along `u`, and the `'u'` family of
     the surface stacked along `v`, are the input curves net by net – with the degree and the knot vector of the
-    FIRST curve (the code copies only `args[0].knotvector`). -/
+    FIRST curve (the code copies only `args[0].knotvector`).  Guards of the code (driver ops `consurf` / `consurfr`:
+    ERR): the degree of the stacking direction is at least 1 (`hdeg1`: for `degree=0` the eagerly evaluated default
+    `knotvector.generate(degree, len(args))` raises although a knot vector is passed) and there are at least
+    `degO + 1` curves (`hdeg`: else `set_ctrlpts` raises "Number of control points should be at least degree + 1").
+    The knot datum `kvO` is abstract here (type `κ`) and carried unchanged: for the code it is the vector the
+    knot-vector setter STORES – validated and normalised, see `construct_surface_eval`. -/
 theorem construct_extract_surface (args : List (Crv α κ)) (c0 : Crv α κ) (degO : ℕ) (kvO : κ)
-    (h0 : args.head? = some c0) (h2 : 2 ≤ args.length)
+    (h0 : args.head? = some c0) (h2 : 2 ≤ args.length) (hdeg : degO + 1 ≤ args.length) (hdeg1 : 1 ≤ degO)
     (hall : ∀ c ∈ args, c.deg = c0.deg ∧ c.pts.length = c0.pts.length) :
     (∃ S, constructSurface Dir.u degO kvO args = some S ∧
       extractCurvesV S = args.map fun c => { c0 with pts := c.pts }) ∧
@@ -550,9 +613,11 @@ theorem construct_extract_surface (args : List (Crv α κ)) (c0 : Crv α κ) (de
 /-- **`extract_surfaces` after `construct_volume`** (repaired code), all three stacking directions: for at least two
     surfaces of equal degrees and sizes with nets of `size_u·size_v` points, the `'vw'` family of the volume stacked
     along `u`, the `'uw'` family of the one stacked along `v` and the `'uv'` family of the one stacked along `w` are
-    the input surfaces net by net, with the degrees and knot vectors of the first surface. -/
+    the input surfaces net by net, with the degrees and knot vectors of the first surface.  Guards of the code (driver
+    ops `convol` / `convolr`: ERR) as for `construct_extract_surface`: `1 ≤ degO`, `degO + 1 ≤` number of surfaces;
+    `kvO` is the knot vector the setter stores. -/
 theorem construct_extract_volume (args : List (Srf α κ)) (s0 : Srf α κ) (degO : ℕ) (kvO : κ)
-    (h0 : args.head? = some s0) (h2 : 2 ≤ args.length) (hsu : 0 < s0.su)
+    (h0 : args.head? = some s0) (h2 : 2 ≤ args.length) (hdeg : degO + 1 ≤ args.length) (hdeg1 : 1 ≤ degO) (hsu : 0 < s0.su)
     (hall : ∀ s ∈ args, s.du = s0.du ∧ s.dv = s0.dv ∧ s.su = s0.su ∧ s.sv = s0.sv ∧ s.pts.length = s0.su * s0.sv) :
     (∃ V, constructVolume Dir.u degO kvO args = some V ∧
       extractSurfacesVW V = args.map fun s => { s0 with pts := s.pts }) ∧
@@ -568,10 +633,18 @@ theorem construct_extract_volume (args : List (Srf α κ)) (s0 : Srf α κ) (deg
     dimension, at least `degree+1 ≥ 2` of them) and `degO + 1 ≤ m + 1`: the surface stacked along `u` satisfies
     `S(t, v) = ` the degree-`degO` curve with knot function `kvO` through the points `C_i(v)`, at `t`; the surface
     stacked along `v` satisfies `S(u, t) = ` that curve through the points `C_i(u)` – every parameter, every
-    coordinate, all spans by the library's search, each `C_i` evaluated with the knot vector of `C_0`. -/
+    coordinate, all spans by the library's search, each `C_i` evaluated with the knot vector of `C_0`.
+    The knot vector of the stacking direction: `L` is the list passed as `knotvector=`; the knot-vector setter of the
+    new surface VALIDATES it (`knotvector.check`: `degO + len(args) + 1` knots, non-decreasing – `hkv`; else
+    `ValueError`) and NORMALISES it (`hrange`: first knot ≠ last knot, else `normalize` divides by zero), so what the
+    surface stores – and what the driver ops `consurf` / `consurfr` pass to the model – is `knotNormalize L`, and the
+    curve on the right-hand side is the curve over `kvO = knotNormalize L` (e.g. `[0,0,2,2]` is stored as
+    `[0,0,1,1]`; an `L` that is already normalised is stored as it is, `knotNormalize_of_normalised`).  `hdeg1`:
+    `degree=0` raises in the eagerly evaluated default `knotvector.generate(0, len(args))`. -/
 theorem construct_surface_eval {K : Type} [Field K] [LinearOrder K] [IsStrictOrderedRing K]
-    (args : List (Crv (List K) (ℕ → K))) (c0 : Crv (List K) (ℕ → K)) (degO : ℕ) (kvO : ℕ → K) (d : ℕ)
-    (h0 : args.head? = some c0) (h2 : 2 ≤ args.length) (hdeg : degO + 1 ≤ args.length)
+    (args : List (Crv (List K) (ℕ → K))) (c0 : Crv (List K) (ℕ → K)) (degO : ℕ) (L : List K) (kvO : ℕ → K) (d : ℕ)
+    (h0 : args.head? = some c0) (h2 : 2 ≤ args.length) (hdeg : degO + 1 ≤ args.length) (hdeg1 : 1 ≤ degO)
+    (hkv : knotCheck degO L args.length = true) (hrange : L.headD 0 ≠ L.getLastD 0) (hkvO : kvO = fnOf (knotNormalize L))
     (hm : 2 ≤ c0.pts.length) (hd0 : c0.deg + 1 ≤ c0.pts.length)
     (hall : ∀ c ∈ args, c.deg = c0.deg ∧ c.pts.length = c0.pts.length) (hd : ∀ c ∈ args, ∀ p ∈ c.pts, p.length = d) :
     (∃ S, constructSurface Dir.u degO kvO args = some S ∧ ∀ (t v : K) (j : ℕ),
@@ -582,14 +655,25 @@ theorem construct_surface_eval {K : Type} [Field K] [LinearOrder K] [IsStrictOrd
         = (curvePoint degO kvO (args.map fun c => curvePoint c0.deg c0.kv c.pts u) t).getD j 0) :=
   ⟨constructSurface_u_eval degO kvO d h0 h2 hdeg hm hd0 hall hd, constructSurface_v_eval degO kvO d h0 h2 hdeg hm hd0 hall hd⟩
 
+/-- the setter leaves a valid knot vector that already runs from 0 to 1 unchanged -/
+theorem knotNormalize_of_normalised {K : Type} [Field K] (L : List K) (h0 : L.headD 0 = 0) (h1 : L.getLastD 0 = 1) :
+    knotNormalize L = L := by
+  unfold knotNormalize
+  simp only [h0, h1, sub_zero, div_one]
+  exact List.map_id' L
+
 /-- **`construct_volume` output, evaluated** (repaired code, all three stacking directions).  For surfaces
     `S_0 … S_m` of equal degrees and sizes (nets of `size_u·size_v` points of one dimension, at least `degree+1 ≥ 2`
     per direction) and `degO + 1 ≤ m + 1`: with `Q_i = S_i(a, b)` (each `S_i` evaluated with the knot vectors of `S_0`)
     and `c(t)` the degree-`degO` curve with knot function `kvO` through `Q_0 … Q_m`,
-    `V_u(t, a, b) = V_v(a, t, b) = V_w(a, b, t) = c(t)` – every parameter, every coordinate. -/
+    `V_u(t, a, b) = V_v(a, t, b) = V_w(a, b, t) = c(t)` – every parameter, every coordinate.
+    Knot vector of the stacking direction as in `construct_surface_eval`: `L` = the list passed as `knotvector=`,
+    validated (`hkv`) and normalised (`hrange`) by the setter, `kvO = knotNormalize L` = what the volume stores and the
+    driver ops `convol` / `convolr` pass on; `hdeg1`: `degree=0` raises. -/
 theorem construct_volume_eval {K : Type} [Field K] [LinearOrder K] [IsStrictOrderedRing K]
-    (args : List (Srf (List K) (ℕ → K))) (s0 : Srf (List K) (ℕ → K)) (degO : ℕ) (kvO : ℕ → K) (d : ℕ)
-    (h0 : args.head? = some s0) (h2 : 2 ≤ args.length) (hdeg : degO + 1 ≤ args.length)
+    (args : List (Srf (List K) (ℕ → K))) (s0 : Srf (List K) (ℕ → K)) (degO : ℕ) (L : List K) (kvO : ℕ → K) (d : ℕ)
+    (h0 : args.head? = some s0) (h2 : 2 ≤ args.length) (hdeg : degO + 1 ≤ args.length) (hdeg1 : 1 ≤ degO)
+    (hkv : knotCheck degO L args.length = true) (hrange : L.headD 0 ≠ L.getLastD 0) (hkvO : kvO = fnOf (knotNormalize L))
     (hsu : 2 ≤ s0.su) (hsv : 2 ≤ s0.sv) (hdu : s0.du + 1 ≤ s0.su) (hdv : s0.dv + 1 ≤ s0.sv)
     (hall : ∀ s ∈ args, s.du = s0.du ∧ s.dv = s0.dv ∧ s.su = s0.su ∧ s.sv = s0.sv ∧ s.pts.length = s0.su * s0.sv)
     (hd : ∀ s ∈ args, ∀ p ∈ s.pts, p.length = d) :
@@ -615,8 +699,17 @@ example : ∃ V, constructVolume Dir.u 1 (fnOf ([0,0,1,1] : List ℚ)) [c13RatSr
     (volumePoint V.du V.dv V.dw V.ku V.kv V.kw V.su V.sv V.sw V.pts t a b).getD j 0
       = (curvePoint 1 (fnOf ([0,0,1,1] : List ℚ)) ([c13RatSrf, c13RatSrf2].map fun s =>
           surfacePoint c13RatSrf.du c13RatSrf.dv c13RatSrf.ku c13RatSrf.kv c13RatSrf.su c13RatSrf.sv s.pts a b) t).getD j 0 :=
-  (construct_volume_eval [c13RatSrf, c13RatSrf2] c13RatSrf 1 (fnOf ([0,0,1,1] : List ℚ)) 4 rfl (by decide) (by decide)
+  (construct_volume_eval [c13RatSrf, c13RatSrf2] c13RatSrf 1 [0,0,1,1] (fnOf ([0,0,1,1] : List ℚ)) 4 rfl (by decide) (by decide)
+    (by decide) (by decide +kernel) (by decide +kernel) (by rw [knotNormalize_of_normalised _ (by decide +kernel) (by decide +kernel)])
     (by decide) (by decide) (by decide) (by decide) (by decide) (by decide)).1
+
+/-- … an un-normalised knot vector `[0,0,2,2]` passes the guards, and the theorem then speaks about the curve over the
+    STORED vector `[0,0,1,1]` -/
+example : knotCheck 1 ([0,0,2,2] : List ℚ) 2 = true ∧ ([0,0,2,2] : List ℚ).headD 0 ≠ ([0,0,2,2] : List ℚ).getLastD 0 ∧
+    knotNormalize ([0,0,2,2] : List ℚ) = [0,0,1,1] := by decide +kernel
+
+/-- … an unsorted one does not (`ValueError` in the setter) -/
+example : knotCheck 1 ([0,1,0,1] : List ℚ) 2 = false := by decide +kernel
 
 /-- … and at `(t, a, b) = (1/4, 1/3, 1/2)` both sides are the same homogeneous point (computed in ℚ) -/
 example : (constructVolume Dir.u 1 (fnOf ([0,0,1,1] : List ℚ)) [c13RatSrf, c13RatSrf2]).map (fun V =>
@@ -665,35 +758,81 @@ theorem construct_volume_rational_explicit {K : Type} [Field K] [LinearOrder K] 
 /-- **`sweep_vector` on rational shapes with the split-and-recombine inserted.**  The swept copy's net (read `ctrlpts`,
     `point_translate`, write through the `ctrlpts` setter of the deep copy) is the net mapped by `pointTranslateW vec`
     (no hypothesis: the same divisions on both sides); with non-zero weights `sweepCurveRat` / `sweepSurfaceRat` are
-    `sweepCurve` / `sweepSurface` with that point map. -/
+    `sweepCurve` / `sweepSurface` with that point map.  The second and third part are stated on the region where the
+    two models describe the code (guard of the driver ops `sweepcr` / `sweepsr`): homogeneous points of `d + 1`
+    coordinates and a vector of at least `d` entries, `3 ≤ d` for a surface (outside it `sweep_vector` raises; the two
+    models still agree with each other there, `Geomdl.sweepCurveRat_eq`, but neither describes the code). -/
 theorem sweep_vector_rational_explicit {K : Type} [Field K] [LinearOrder K] [IsStrictOrderedRing K]
     (vec : List K) (kvGen : κ) :
     (∀ Pw : List (List K), sweptNet vec Pw = Pw.map (pointTranslateW vec)) ∧
-    (∀ C : Crv (List K) κ, HomOk C.pts → C.pts ≠ [] →
+    (∀ (C : Crv (List K) κ) (d : ℕ), HomOk C.pts → C.pts ≠ [] → (∀ p ∈ C.pts, p.length = d + 1) → d ≤ vec.length →
       sweepCurveRat vec kvGen C = sweepCurve (pointTranslateW vec) kvGen C) ∧
-    (∀ S : Srf (List K) κ, HomOk S.pts → S.pts.length = S.su * S.sv → 0 < S.su * S.sv →
+    (∀ (S : Srf (List K) κ) (d : ℕ), HomOk S.pts → S.pts.length = S.su * S.sv → 0 < S.su * S.sv →
+      (∀ p ∈ S.pts, p.length = d + 1) → 3 ≤ d → d ≤ vec.length →
       sweepSurfaceRat vec kvGen S = sweepSurface (pointTranslateW vec) kvGen S) :=
-  ⟨sweptNet_eq vec, fun C h hne => sweepCurveRat_eq vec kvGen C h hne,
-   fun S h hl hpos => sweepSurfaceRat_eq vec kvGen S h hl hpos⟩
+  ⟨sweptNet_eq vec, fun C _ h hne _ _ => sweepCurveRat_eq vec kvGen C h hne,
+   fun S _ h hl hpos _ _ _ => sweepSurfaceRat_eq vec kvGen S h hl hpos⟩
 
 /-- **Sections of a swept rational shape, net level, explicit model**: the two `u`-sections of the swept curve are the
     curve and the curve with the net mapped by `pointTranslateW vec`; the two `w`-sections of the swept surface are the
-    surface and its mapped copy (3-D guard as in `sweep_surface_sections`: `4 ≤` number of homogeneous coordinates). -/
+    surface and its mapped copy (3-D guard as in `sweep_surface_sections`: `4 ≤` number of homogeneous coordinates).
+    Guard of the code / of the driver ops `sweepcr`, `sweepsr` (audit 4, H2): the vector has at least as many entries as
+    the points have Cartesian coordinates (`d ≤ vec.length` for homogeneous points of `d + 1` coordinates; `d ≤
+    vec.length + 1` where `d` counts the weight) – a shorter vector makes `set_ctrlpts` of the swept copy raise
+    ("Rational curves expect weighted control points"), while the model would return a ragged net.  Under the guard
+    every point of the mapped copy keeps its number of coordinates (last conjunct). -/
 theorem sweep_sections_rational {K : Type} [Field K] [LinearOrder K] [IsStrictOrderedRing K] (vec : List K) (kvGen : κ) :
-    (∀ C : Crv (List K) κ, HomOk C.pts → C.pts ≠ [] →
+    (∀ (C : Crv (List K) κ) (d : ℕ), HomOk C.pts → C.pts ≠ [] → (∀ p ∈ C.pts, p.length = d + 1) → d ≤ vec.length →
       ∃ S, sweepCurveRat vec kvGen C = some S ∧ S.du = 1 ∧ S.dv = C.deg ∧ S.ku = kvGen ∧ S.kv = C.kv ∧
         S.su = 2 ∧ S.sv = C.pts.length ∧
-        extractCurvesV S = [C, { C with pts := C.pts.map (pointTranslateW vec) }]) ∧
-    (∀ (S : Srf (List K) κ) (d : ℕ), S.WF → HomOk S.pts → (∀ p ∈ S.pts, p.length = d) → 4 ≤ d →
+        extractCurvesV S = [C, { C with pts := C.pts.map (pointTranslateW vec) }] ∧
+        ∀ p ∈ C.pts.map (pointTranslateW vec), p.length = d + 1) ∧
+    (∀ (S : Srf (List K) κ) (d : ℕ), S.WF → HomOk S.pts → (∀ p ∈ S.pts, p.length = d) → 4 ≤ d → d ≤ vec.length + 1 →
       ∃ V, sweepSurfaceRat vec kvGen S = some V ∧ V.du = S.du ∧ V.dv = S.dv ∧ V.dw = 1 ∧ V.kw = kvGen ∧
         V.su = S.su ∧ V.sv = S.sv ∧ V.sw = 2 ∧
-        extractSurfacesUV V = [S, { S with pts := S.pts.map (pointTranslateW vec) }]) :=
-  ⟨fun C h hne => sweepCurveRat_sections vec kvGen C h hne,
-   fun S _ hwf h _ _ => sweepSurfaceRat_sections vec kvGen S hwf h⟩
+        extractSurfacesUV V = [S, { S with pts := S.pts.map (pointTranslateW vec) }] ∧
+        ∀ p ∈ S.pts.map (pointTranslateW vec), p.length = d) :=
+  ⟨fun C d h hne hd hvec => by
+    obtain ⟨S, h1, h2, h3, h4, h5, h6, h7, h8⟩ := sweepCurveRat_sections vec kvGen C h hne
+    exact ⟨S, h1, h2, h3, h4, h5, h6, h7, h8, fun p hp => by
+      obtain ⟨q, hq, rfl⟩ := List.mem_map.mp hp
+      exact pointTranslateW_length_of_le vec q d (hd q hq) hvec⟩,
+   fun S d hwf h hd h4 hvec => by
+    obtain ⟨V, h1, h2, h3, h5, h6, h7, h8, h9, h10⟩ := sweepSurfaceRat_sections vec kvGen S hwf h
+    exact ⟨V, h1, h2, h3, h5, h6, h7, h8, h9, h10, fun p hp => by
+      obtain ⟨q, hq, rfl⟩ := List.mem_map.mp hp
+      have e : d = (d - 1) + 1 := by omega
+      rw [e]
+      exact pointTranslateW_length_of_le vec q (d - 1) (by rw [hd q hq]; exact e) (by omega)⟩⟩
 
 /-- non-vacuity: the witness nets have non-zero weights, not all 1 … -/
 example : HomOk c13RatCrvL.pts ∧ HomOk c13RatSrfL.pts ∧ HomOk c13RatSrfL2.pts := by
   refine ⟨?_, ?_, ?_⟩ <;> (unfold HomOk; decide +kernel)
+
+/-- … the guarded net-level theorem applies to the rational witness curve (2 Cartesian coordinates) and the vector
+    `(1, 1/2)`; every point of the far section keeps its 3 homogeneous coordinates -/
+example : ∃ S, sweepCurveRat [1, 1/2] [0,0,1,1] c13RatCrvL = some S ∧
+    extractCurvesV S = [c13RatCrvL, { c13RatCrvL with pts := c13RatCrvL.pts.map (pointTranslateW [1, 1/2]) }] ∧
+    ∀ p ∈ c13RatCrvL.pts.map (pointTranslateW [1, 1/2]), p.length = 2 + 1 := by
+  obtain ⟨S, h1, _, _, _, _, _, _, h2, h3⟩ := (sweep_sections_rational ([1, 1/2] : List ℚ) ([0,0,1,1] : List ℚ)).1
+    c13RatCrvL 2 (by unfold HomOk; decide +kernel) (by decide) (by decide) (by decide)
+  exact ⟨S, h1, h2, h3⟩
+
+/-- … and the non-rational one (`sweep_curve_sections`) with the dimension guard discharged through
+    `sweep_point_maps_keep_dimension`: a 3-D polygon swept by a vector of 4 entries (the code cuts the vector) -/
+example : ∃ S, sweepCurve (pointTranslate [5,7,1,9]) () ({ deg := 1, kv := (), pts := [[0,0,1],[0,1,2],[(1:ℚ),0,0]] } : Crv (List ℚ) Unit) = some S ∧
+    ∀ p ∈ S.pts, p.length = 3 := by
+  obtain ⟨S, h1, _, _, _, _, _, _, _, h2⟩ := sweep_curve_sections (pointTranslate [5,7,1,9]) ()
+    ({ deg := 1, kv := (), pts := [[0,0,1],[0,1,2],[(1:ℚ),0,0]] } : Crv (List ℚ) Unit) 3 (by decide)
+    (fun p hp => (sweep_point_maps_keep_dimension [5,7,1,9] p 3).2.1
+      (by revert p; decide) (by decide))
+  exact ⟨S, h1, h2⟩
+
+/-- … `construct_extract_surface` with its degree guards: three copies of the witness curve, degree 2 along `u` -/
+example : ∃ S, constructSurface Dir.u 2 [0,0,0,1,1,1] [c13RatCrvL, c13RatCrvL, c13RatCrvL] = some S ∧
+    extractCurvesV S = [c13RatCrvL, c13RatCrvL, c13RatCrvL] :=
+  (construct_extract_surface [c13RatCrvL, c13RatCrvL, c13RatCrvL] c13RatCrvL 2 [0,0,0,1,1,1] rfl (by decide) (by decide)
+    (by decide) (by intro c hc; simp at hc; subst hc; exact ⟨rfl, rfl⟩)).1
 
 /-- … on them the explicit models compute (in ℚ) the same as the layout models: the swept rational curve
     (weights `1, 2, 1/2`, vector `(1, 1/2)`) … -/
